@@ -6,7 +6,7 @@ import MindsVerif.Lemmas.RouteSem
 * T11.3 `C11_decision` / `C11_decision_cte` / `C11_decision_sound`: `check_single_integration` sends the query to
   `i` (plan = exactly one fetch step for `i` holding the stripped query) whenever every item the walker visits is a
   table that `resolve_database_table` sends to the data integration `i` (SQL-capable, not files/views, no UDF, no
-  native query) — with the repaired `get_query_info` (`skip = true`, fixes/C11_1.diff) also bare CTE names, under any
+  native query) — since 0e75382 (`skip = true`) also bare CTE names, under any
   default namespace — and conversely, when it does, every visited item is such a table (or a CTE name).
 * T11.2 `C11_names`: an identifier target keeps its output column name (an alias is added exactly when
   the bare target would otherwise be the only carrier of the name; the cut never removes the last part).
@@ -15,27 +15,29 @@ import MindsVerif.Lemmas.RouteSem
   (scope depth, table instance, table, column) as in the original on the federated catalog — for all
   queries of the fragment (any nesting, any number of tables/columns, ANY aliases) satisfying `okSel db names`:
   table references are `[db.]t` and a two-part column reference is qualified by the integration name only if the
-  cut leaves it alone (`db ∈ names`).  `names = []` is the cut as it is in the code (then `int1.x` through an
-  alias `int1` is outside: `C11_witness_1` shows that class is inhabited and really breaks the meaning);
-  `names` = the aliases of the query is the cut of fixes/C11_2.diff (`C11_witness_1_fixed`: the same query is inside).
+  cut leaves it alone (`db ∈ names`).  `names` = the aliases and CTE names of the query is the cut of the code since 1ea1207
+  (`names = []` was the cut before: `C11_regression_1`).  Still outside: an UNALIASED table whose own name is the
+  integration name (`C11_witness_1`; proposal fixes/C11_1.diff adds table names to `names`).
 What is **not** proved here: evaluation of whole queries (M6); T11.1 is about name resolution, the
 only thing the rewrite touches.  The end-to-end statement is probed on sqlite3 by `tools/props/c11.py`.
 -/
 namespace MindsVerif.Props.C11
 open MindsVerif.Route
 
-/-- full statement, resolution clause: stripping never changes what a column reference denotes
-(`names`: the lower-cased aliases / CTE names handed to the cut; `[]` for the code as it is) -/
+/-- full statement, resolution clause, for the planner as it is (since 1ea1207 the cut is handed `names` = the
+lower-cased aliases and CTE names of the query): stripping never changes what a column reference denotes -/
 def C11_resolution_full : Prop :=
-  ∀ (db : Name) (names : List Name) (sch : Schema) (s : Sel),
-    resolveAll false db sch [] (stripSel db names s) = resolveAll true db sch [] s
+  ∀ (db : Name) (sch : Schema) (s : Sel),
+    resolveAll false db sch [] (stripSel db (aliasesOf s) s) = resolveAll true db sch [] s
 
-/-- full statement, decision clause -/
+/-- full statement, decision clause, for the planner as it is (since 0e75382 bare CTE names are not looked at):
+if everything the walker visits is a table of the data integration `i` or a CTE name, and at least one is a
+table, the plan is exactly one fetch step for `i` holding the stripped query -/
 def C11_decision_full : Prop :=
   ∀ (names : List Name) (c : Catalog) (ctes : List Name) (q : Node) (i : Name),
-    visit .arg q ≠ [] → allResolveTo c i (visit .arg q) → i ∉ c.projects →
-    i ≠ n!"files" → i ≠ n!"views" → c.classType i ≠ some n!"api" →
-    planTop false names c ctes q = some [.fetch i (strip i names .noFrom .arg q)]
+    (visit .arg q).any (counted true ctes) = true → (∀ it ∈ visit .arg q, itemFine true c ctes i it) →
+    i ∉ c.projects → i ≠ n!"files" → i ≠ n!"views" → c.classType i ≠ some n!"api" →
+    planTop true names c ctes q = some [.fetch i (strip i names .noFrom .arg q)]
 
 /-- full statement, names clause -/
 def C11_names_full : Prop :=
@@ -45,20 +47,26 @@ def C11_names_full : Prop :=
 
 def C11_full : Prop := C11_decision_full ∧ C11_names_full ∧ C11_resolution_full
 
-/-- T11.3 -/
-theorem C11_decision : C11_decision_full := by
-  intro names c ctes q i hne hall hi hf hv hapi
-  simp [planTop, checkSingle_of_single c ctes i _ hne hall hi hf hv hapi]
-
-/-- T11.3 for both readings of `get_query_info` (`skip = true`: fixes/C11_1.diff): the visited items may also be
-bare CTE names, as long as at least one of them is a real table; with `skip = true` this covers CTE queries
-under ANY default namespace (today only when the default namespace is a project, see `C11_witness_2`) -/
+/-- T11.3 for both readings of `get_query_info` (`skip = true`: the code since 0e75382): the visited items may also
+be bare CTE names, as long as at least one of them is a real table; with `skip = true` this covers CTE queries
+under ANY default namespace (before 0e75382 only when the default namespace was a project: `C11_regression_2`) -/
 theorem C11_decision_cte (skip : Bool) (names : List Name) (c : Catalog) (ctes : List Name) (q : Node) (i : Name)
     (hne : (visit .arg q).any (counted skip ctes) = true)
     (hall : ∀ it ∈ visit .arg q, itemFine skip c ctes i it) (hi : i ∉ c.projects)
     (hf : i ≠ n!"files") (hv : i ≠ n!"views") (hapi : c.classType i ≠ some n!"api") :
     planTop skip names c ctes q = some [.fetch i (strip i names .noFrom .arg q)] := by
   simp [planTop, checkSingle_of_fine skip c ctes i _ hne hall hi hf hv hapi]
+
+/-- T11.3 (main, full decision clause) -/
+theorem C11_decision : C11_decision_full :=
+  fun names c ctes q i hne hall hi hf hv hapi => C11_decision_cte true names c ctes q i hne hall hi hf hv hapi
+
+/-- T11.3 as it was before 0e75382 (no CTE references among the visited items) -/
+theorem C11_decision_before_0e75382 (names : List Name) (c : Catalog) (ctes : List Name) (q : Node) (i : Name)
+    (hne : visit .arg q ≠ []) (hall : allResolveTo c i (visit .arg q)) (hi : i ∉ c.projects)
+    (hf : i ≠ n!"files") (hv : i ≠ n!"views") (hapi : c.classType i ≠ some n!"api") :
+    planTop false names c ctes q = some [.fetch i (strip i names .noFrom .arg q)] := by
+  simp [planTop, checkSingle_of_single c ctes i _ hne hall hi hf hv hapi]
 
 /-- T11.3, converse: a pushdown happens only for such queries, and yields exactly one fetch step -/
 theorem C11_decision_sound (skip : Bool) (names : List Name) (c : Catalog) (ctes : List Name) (q : Node)
@@ -93,30 +101,43 @@ def aliasQuery : Sel :=
   .mk [⟨[n!"int1", n!"t"], some n!"int1"⟩, ⟨[n!"int1", n!"s"], some n!"s"⟩]
       [[n!"int1", n!"x"], [n!"s", n!"y"], [n!"int1", n!"id"], [n!"s", n!"id"]] .nil
 
-/-- the alias equals the integration name: `int1.id` is cut to `id`, which is ambiguous on `int1` -/
-theorem C11_witness_1 :
+/-- regression (before 1ea1207 the cut ignored aliases, `names = []`): the alias equals the integration name,
+`int1.id` was cut to `id`, which is ambiguous on `int1`; with the aliases handed to the cut the query keeps its meaning
+and lies inside `C11_partial_resolution` -/
+theorem C11_regression_1 :
     resolveAll true n!"int1" sch1 [] aliasQuery =
       [.ok 0 0 n!"t" n!"x", .ok 0 1 n!"s" n!"y", .ok 0 0 n!"t" n!"id", .ok 0 1 n!"s" n!"id"] ∧
     resolveAll false n!"int1" sch1 [] (stripSel n!"int1" [] aliasQuery) =
       [.ok 0 0 n!"t" n!"x", .ok 0 1 n!"s" n!"y", .ambiguous, .ok 0 1 n!"s" n!"id"] ∧
-    okSel n!"int1" [] aliasQuery = false := by decide
-
-/-- with the alias-aware cut (fixes/C11_2.diff) the same query is inside the theorem and keeps its meaning -/
-theorem C11_witness_1_fixed :
+    okSel n!"int1" [] aliasQuery = false ∧
     okSel n!"int1" (aliasesOf aliasQuery) aliasQuery = true ∧
     resolveAll false n!"int1" sch1 [] (stripSel n!"int1" (aliasesOf aliasQuery) aliasQuery) =
       resolveAll true n!"int1" sch1 [] aliasQuery := by decide
 
+/-- tables `int1(id, x)` and `s(id, y)` of integration `int1` -/
+def sch2 : Schema := fun _ t =>
+  if t = n!"int1" then [n!"id", n!"x"] else if t = n!"s" then [n!"id", n!"y"] else []
+
+/-- `select int1.id from int1.int1 join int1.s on …`: an UNALIASED table whose own name is the integration name -/
+def tableNamedLikeDb : Sel :=
+  .mk [⟨[n!"int1", n!"int1"], none⟩, ⟨[n!"int1", n!"s"], none⟩] [[n!"int1", n!"id"]] .nil
+
+/-- the class still excluded from `C11_partial_resolution` is inhabited: table names are not among the `names`
+handed to the cut, so `int1.id` (column of table `int1`) is cut to `id`, ambiguous on the integration -/
+theorem C11_witness_1 :
+    resolveAll true n!"int1" sch2 [] tableNamedLikeDb = [.ok 0 0 n!"int1" n!"id"] ∧
+    resolveAll false n!"int1" sch2 [] (stripSel n!"int1" (aliasesOf tableNamedLikeDb) tableNamedLikeDb) = [.ambiguous] ∧
+    okSel n!"int1" (aliasesOf tableNamedLikeDb) tableNamedLikeDb = false := by decide
+
 theorem C11_resolution_full_false : ¬ C11_resolution_full := fun h => by
-  have := h n!"int1" [] sch1 aliasQuery
+  have := h n!"int1" sch2 tableNamedLikeDb
   rw [C11_witness_1.1, C11_witness_1.2.1] at this
   exact absurd this (by decide)
 
-/-- `WITH cte1 AS (SELECT x FROM int1.t) SELECT * FROM cte1` with `default_namespace='proj'` (not a project):
-the reference to the CTE counts as a second integration and the query is not pushed down whole, although
-every real table is in `int1`.  `C11_decision` excludes it (`allResolveTo` fails for the CTE reference);
-with a project as default namespace the same query is pushed down. -/
-theorem C11_witness_2 :
+/-- regression (before 0e75382): `WITH cte1 AS (SELECT x FROM int1.t) SELECT * FROM cte1` with
+`default_namespace='proj'` (not a project) — the reference to the CTE counted as a second integration and the query was
+not pushed down whole; with a project as default namespace it was; now it is in both cases (`C11_decision`) -/
+theorem C11_regression_2 :
     checkSingle false (mkCatalog ⟨some [.nm n!"int1", .nm n!"int2"], none, .none, some n!"proj"⟩) [n!"cte1"]
       [.table [n!"cte1"], .table [n!"int1", n!"t"]] = none ∧
     checkSingle false (mkCatalog ⟨some [.nm n!"int1", .nm n!"int2"], none, .none, some n!"mindsdb"⟩) [n!"cte1"]
@@ -132,7 +153,7 @@ def goodQuery : Sel :=
       [[n!"int1", n!"t", n!"x"], [n!"a", n!"y"]]
       (.cons (.mk [⟨[n!"int1", n!"s"], none⟩] [[n!"INT1", n!"t", n!"x"], [n!"s", n!"id"], [n!"a", n!"id"]] .nil) .nil)
 
-example : okSel n!"int1" [] goodQuery = true := by decide
+example : okSel n!"int1" (aliasesOf goodQuery) goodQuery = true := by decide
 example : resolveAll true n!"int1" sch1 [] goodQuery =
     [.ok 0 0 n!"t" n!"x", .ok 0 1 n!"s" n!"y", .ok 1 0 n!"t" n!"x", .ok 0 0 n!"s" n!"id", .ok 1 1 n!"s" n!"id"] := by
   decide
@@ -151,8 +172,8 @@ def Step.integration : Step → Name
 def Step.idents : Step → List (List Name × Bool × Option (List Name))
   | .fetch _ q => allIdents q
 
-example : (planTop false [] cat2 [] joinQuery).map (·.map Step.integration) = some [n!"int1"] := by decide
-example : (planTop false [] cat2 [] joinQuery).map (·.flatMap Step.idents) =
+example : (planTop true [] cat2 [] joinQuery).map (·.map Step.integration) = some [n!"int1"] := by decide
+example : (planTop true [] cat2 [] joinQuery).map (·.flatMap Step.idents) =
     some [([n!"s"], false, none), ([n!"t"], false, none), ([n!"t", n!"id"], false, none),
       ([n!"s", n!"id"], false, none), ([n!"t", n!"x"], false, none)] := by decide
 
